@@ -23,12 +23,17 @@
    * NPB_main: path_exchange_nc_enumerated, maintenance_nc_enumerated, apply_cand_exch_maint_no_crash, with the other
      prover's result as the explicit premise [IR] (improve_and_recompute returns Ok; no_crash alone would not do, since
      the swaps turn its Err into a panic).
+   * NPB_comb (uses NoPanicFactsA.v): apply_cand_no_crash_under_rooms and neighbors_no_crash_under_rooms — for every
+     wreachable schedule of a network with net_fine, net_extra_b (part A's executable side conditions, which imply
+     unsigned_ok and cov_all), finite distances: if every wreachable schedule has SpawnRoom and room for two more
+     vehicles (RoomN 2), then no candidate application and hence [neighbors] never crashes.  (By WitnessRoom that room
+     premise is not satisfiable on every network: it is the precise precondition, not a fact.)
    Network side conditions beyond net_fine: [unsigned_ok] (cost rates, planning duration, distances are >= 0: u64 in
    the code, Z in the model; NPB_tour.TourNCWitness shows a panic with a negative rate) and [cov_all] (every activity
    node is coverable); executable readings in NPB_chk. *)
 
 From Coq Require Sorted Arith.
-From RS Require Base Network NetSpec Tour TourStmts TourExactStmts Transition Schedule NoPanicStmts BaseFacts NetFacts TourSpec TourFacts TourValidFacts TourExactFacts TransSpec SchedInv SchedObs SchedStruct SchedCostsFacts SchedUnservedFacts SchedViolFacts SchedListFacts SchedToursFacts SchedFormLimFacts SchedUsageFacts SchedFormsFacts SchedTransFacts SchedExactFacts Swaps SwapsStmts SwapsFacts SwapsStmts2 SwapsFacts2 PipelineSched RenderStmts TransStmts TransFacts TransFacts2.
+From RS Require Base Network NetSpec Tour TourStmts TourExactStmts Transition Schedule NoPanicStmts BaseFacts NetFacts TourSpec TourFacts TourValidFacts TourExactFacts TransSpec SchedInv SchedObs SchedStruct SchedCostsFacts SchedUnservedFacts SchedViolFacts SchedListFacts SchedToursFacts SchedFormLimFacts SchedUsageFacts SchedFormsFacts SchedTransFacts SchedExactFacts Swaps SwapsStmts SwapsFacts SwapsStmts2 SwapsFacts2 PipelineSched RenderStmts TransStmts TransFacts TransFacts2 NoPanicFactsA.
 
 Module NPB_defs.
 Import Base Network NetSpec Tour TourStmts TourExactStmts Transition Schedule NoPanicStmts.
@@ -1932,6 +1937,13 @@ Proof.
     + apply vid_eqb_neq in E. repeat constructor; cbn; intuition.
 Qed.
 
+Lemma dedup_v_length l : (length (dedup_v l) <= length l)%nat.
+Proof.
+  induction l as [|a r IH]; [cbn; lia|]. destruct r as [|b r']; [cbn; lia|].
+  change (dedup_v (a :: b :: r')) with (if vid_eqb a b then dedup_v (b :: r') else a :: dedup_v (b :: r')).
+  destruct (vid_eqb a b); cbn [length] in *; lia.
+Qed.
+
 Lemma filter_length_le {A} (f : A -> bool) l : (length (filter f l) <= length l)%nat.
 Proof. induction l as [|a l IH]; cbn [filter length]; [lia|]. destruct (f a); cbn [length]; lia. Qed.
 
@@ -1998,6 +2010,7 @@ Theorem path_exchange_pre s seg p r tp trc :
      exists dep, find_best_start_depot nw (s_usage s1) ty f = Ok dep) ->
   path_exchange nw s seg p r = Err \/
   exists second ch, wreachable nw second /\ NoDup ch /\ (forall v, In v ch -> is_vehicle second v = true) /\
+    (length ch <= 2)%nat /\
     path_exchange nw s seg p r = match improve_and_recompute nw second ch with Err => Panic | x => x end.
 Proof.
   intros R Htp SO Htr Room.
@@ -2047,6 +2060,8 @@ Proof.
   - exact R2.
   - apply dedup_v_short. pose proof (filter_length_le (fun v => is_vehicle second v) changed). lia.
   - intros v Hv. apply dedup_v_in in Hv. apply filter_In in Hv. tauto.
+  - pose proof (dedup_v_length (filter (fun v => is_vehicle second v) changed)).
+    pose proof (filter_length_le (fun v => is_vehicle second v) changed). lia.
 Qed.
 End PX.
 Print Assumptions path_exchange_pre.
@@ -2130,6 +2145,7 @@ Theorem maint_pre s m v :
      hd_error path = Some f -> exists dep, find_best_start_depot nw (s_usage s2) ty f = Ok dep) ->
   spawn_vehicle_for_maintenance nw s m v = Err \/
   exists s3 ch, wreachable nw s3 /\ NoDup ch /\ (forall x, In x ch -> is_vehicle s3 x = true) /\
+    (length ch <= 2)%nat /\
     spawn_vehicle_for_maintenance nw s m v = match improve_and_recompute nw s3 ch with Err => Panic | x => x end.
 Proof.
   intros R Hm Hv Free Room.
@@ -2316,7 +2332,7 @@ Theorem path_exchange_nc_enumerated s cs seg p r :
      is_vehicle_or_dummy first p = false -> vget p (s_vehicles s) = Some ty ->
      delete_dummy first d = Ok s1 -> vget d (s_dummies first) = Some t -> hd_error (t_nodes t) = Some f ->
      exists dep, find_best_start_depot nw (s_usage s1) ty f = Ok dep) ->
-  (forall second ch, wreachable nw second -> RoomIR second ch) ->
+  (forall second ch, wreachable nw second -> (length ch <= 2)%nat -> RoomIR second ch) ->
   no_crash (path_exchange nw s seg p r).
 Proof.
   intros R Ec Hin Room RoomI.
@@ -2325,7 +2341,7 @@ Proof.
   destruct (segments_ok nw s p sg Esg) as (tp & Htp & Hok).
   destruct (listed_has_tour nw s r (ws_inv nw s W) (ws_L nw s W) Hr) as [trc Htr].
   destruct (path_exchange_pre nw NF DF DH U CA s seg p r tp trc R Htp (Hok seg Hseg) Htr Room)
-    as [->|(second & ch & R2 & N2 & V2 & ->)]; [apply nc_err|].
+    as [->|(second & ch & R2 & N2 & V2 & L2 & ->)]; [apply nc_err|].
   apply final_step_nc; auto.
 Qed.
 
@@ -2334,14 +2350,14 @@ Theorem maintenance_nc_enumerated s cs m v :
   wreachable nw s -> candidates nw s = Ok cs -> In (CMaint m v) cs ->
   (forall s2 path ty f, add_path_to_vehicle_tour nw s v [m] = Ok (s2, Some path) -> vget v (s_vehicles s) = Some ty ->
      hd_error path = Some f -> exists dep, find_best_start_depot nw (s_usage s2) ty f = Ok dep) ->
-  (forall second ch, wreachable nw second -> RoomIR second ch) ->
+  (forall second ch, wreachable nw second -> (length ch <= 2)%nat -> RoomIR second ch) ->
   no_crash (spawn_vehicle_for_maintenance nw s m v).
 Proof.
   intros R Ec Hin Room RoomI.
   pose proof (wreachable_WS nw NF DF DH s R) as W.
   pose proof (candidates_inv nw s cs _ Ec Hin) as (Hm & Hv & Hf).
   apply (iter_all_vehicle nw s v (ws_L nw s W)) in Hv.
-  destruct (maint_pre nw NF DF DH U CA s m v R Hm Hv) as [->|(s3 & ch & R3 & N3 & V3 & ->)]; [| exact Room | apply nc_err |].
+  destruct (maint_pre nw NF DF DH U CA s m v R Hm Hv) as [->|(s3 & ch & R3 & N3 & V3 & L3 & ->)]; [| exact Room | apply nc_err |].
   - intros occ G. rewrite G in Hf. exact Hf.
   - apply final_step_nc; auto.
 Qed.
@@ -2350,7 +2366,7 @@ Qed.
     room in every wreachable schedule *)
 Theorem apply_cand_exch_maint_no_crash s cs c :
   wreachable nw s -> (forall s', wreachable nw s' -> SpawnRoom nw s') ->
-  (forall second ch, wreachable nw second -> RoomIR second ch) ->
+  (forall second ch, wreachable nw second -> (length ch <= 2)%nat -> RoomIR second ch) ->
   candidates nw s = Ok cs -> In c cs -> is_exch c || is_maintc c = true -> no_crash (apply_cand nw s c).
 Proof.
   intros R SR RoomI Ec Hin K.
@@ -2702,6 +2718,85 @@ Lemma nwS_cov_all : cov_all WitnessRoom.nwS.
 Proof. apply cov_all_b_ok. vm_compute. reflexivity. Qed.
 End NPB_chk.
 
+Module NPB_comb.
+Import Sorted.
+Import Base BaseFacts Network NetSpec NetFacts Tour TourSpec TourStmts TourFacts TourValidFacts TourExactStmts TourExactFacts Transition TransSpec Schedule SchedInv SchedObs SchedStruct SchedCostsFacts SchedListFacts SchedToursFacts Swaps SwapsStmts SwapsFacts SwapsStmts2 SwapsFacts2 PipelineSched RenderStmts NoPanicStmts NoPanicFactsA NPB_defs NPB_base NPB_sched NPB_tour NPB_spawn NPB_px NPB_mt NPB_cand NPB_main.
+(* NPB_comb.v — parts A (NoPanicFactsA.v) and B together: [neighbors] never crashes on a wreachable schedule, under the
+   network side conditions of part A and room for two more vehicles in every wreachable schedule *)
+
+
+Local Open Scope Z_scope.
+
+Section Comb.
+Variable nw : network.
+Hypothesis NF : net_fine nw.
+Hypothesis NX : net_extra_b nw = true.
+Hypothesis DF : dists_finite_b nw = true.
+Hypothesis DH : dh_dists_finite_b nw = true.
+
+Lemma extra_unsigned : unsigned_ok nw.
+Proof.
+  destruct (rates_nn nw NX) as (A1 & A2 & A3 & A4 & A5 & A6). constructor; auto.
+  - intros n m E. pose proof (travel_nn nw NX n) as Q. rewrite E in Q. exact Q.
+  - intros a b m E. pose proof (dh_nn nw NX a b) as Q. rewrite E in Q. exact Q.
+Qed.
+Lemma extra_cov_all : cov_all nw.
+Proof. intros n Hd. now apply (nondepot_coverable nw NX). Qed.
+
+(* room for k more vehicles in every wreachable schedule *)
+Definition RoomAll (k : Z) : Prop := forall s', wreachable nw s' -> SpawnRoom nw s' /\ RoomN nw k (s_usage s').
+
+Definition RoomIR (s : schedule) (ch : list vehicle_id) : Prop := RoomN nw (Z.of_nat (length ch)) (s_usage s).
+
+Lemma IR_from_A : forall s changed, wreachable nw s -> RoomIR s changed -> NoDup changed ->
+  (forall v, In v changed -> is_vehicle s v = true) -> exists s', improve_and_recompute nw s changed = Ok s'.
+Proof.
+  intros s changed R RM N V.
+  apply (improve_and_recompute_total_under_room nw NF NX s changed); auto.
+  apply (wreachable_good nw NF DF DH NF DF DH s R).
+Qed.
+
+Theorem apply_cand_no_crash_under_rooms s cs c :
+  wreachable nw s -> RoomAll 2 -> candidates nw s = Ok cs -> In c cs -> no_crash (apply_cand nw s c).
+Proof.
+  intros R RA Ec Hin.
+  destruct (is_exch c || is_maintc c) eqn:K.
+  - apply (apply_cand_exch_maint_no_crash nw NF DF DH extra_unsigned extra_cov_all RoomIR IR_from_A s cs c); auto.
+    + intros s' R'. apply (RA s' R').
+    + intros second ch R2 L2. unfold RoomIR. apply (RoomN_mono nw 2); [lia|]. apply (RA second R2).
+  - apply (apply_cand_simple_no_crash_under_extra nw NF NX DF DH s cs c); auto.
+    + apply (wreachable_good nw NF DF DH NF DF DH s R).
+    + apply (RA s R).
+    + destruct c; cbn in K; try discriminate K; exact I.
+Qed.
+
+Lemma neighbors_fold_nc s cs : (forall c, In c cs -> no_crash (apply_cand nw s c)) ->
+  forall acc, no_crash (fold_left (fun acc c =>
+    do l <- acc;
+    match apply_cand nw s c with
+    | Ok s' => Ok (l ++ [(c, s')])
+    | Err => Ok l
+    | Panic => Panic
+    | OutOfFuel => OutOfFuel
+    end) cs (Ok acc)).
+Proof.
+  induction cs as [|c cs IH]; intros H acc; cbn [fold_left]; [apply nc_ok|]. cbn [bind].
+  destruct (H c (or_introl eq_refl)) as [N1 N2].
+  destruct (apply_cand nw s c); try congruence; apply IH; intros c' Hc'; apply H; now right.
+Qed.
+
+(* stmt_neighbors_no_crash with its premises strengthened to what the model needs *)
+Theorem neighbors_no_crash_under_rooms s : wreachable nw s -> RoomAll 2 -> no_crash (neighbors nw s).
+Proof.
+  intros R RA. unfold neighbors.
+  destruct (candidates_total nw NF s (wreachable_good nw NF DF DH NF DF DH s R)) as [cs Ec]. rewrite Ec. cbn [bind].
+  apply neighbors_fold_nc. intros c Hc. eapply apply_cand_no_crash_under_rooms; eauto.
+Qed.
+End Comb.
+Print Assumptions apply_cand_no_crash_under_rooms.
+Print Assumptions neighbors_no_crash_under_rooms.
+End NPB_comb.
+
 (** * the main results, at top level *)
 Definition wreachable_good := NPB_base.wreachable_good.
 Definition wreachable_WS := NPB_base.wreachable_WS.
@@ -2725,6 +2820,8 @@ Definition room_witness_candidate_panics := NPB_wit.WitnessRoom.enumerated_candi
 Definition apply_cand_no_crash_needs_room := NPB_wit.WitnessRoom.apply_cand_no_crash_needs_room.
 Definition room_everywhere_false := NPB_wit.WitnessRoom.room_everywhere_false.
 Definition apply_cand_no_crash_refuted := NPB_wit2.WitnessGood.apply_cand_no_crash_refuted.
+Definition apply_cand_no_crash_under_rooms := NPB_comb.apply_cand_no_crash_under_rooms.
+Definition neighbors_no_crash_under_rooms := NPB_comb.neighbors_no_crash_under_rooms.
 Print Assumptions wreachable_good.
 Print Assumptions path_exchange_pre.
 Print Assumptions maint_pre.
@@ -2734,3 +2831,5 @@ Print Assumptions apply_cand_exch_maint_no_crash.
 Print Assumptions apply_cand_no_crash_needs_room.
 Print Assumptions room_everywhere_false.
 Print Assumptions apply_cand_no_crash_refuted.
+Print Assumptions apply_cand_no_crash_under_rooms.
+Print Assumptions neighbors_no_crash_under_rooms.
